@@ -18,6 +18,8 @@ import (
 type c14Chunk struct {
 	Wire model.B `json:"wire"`
 	Note string  `json:"note"`
+	// Line: in proxy mode, what precedes this chunk instead of a well-formed HAProxy line (nil = well-formed)
+	Line *model.B `json:"line,omitempty"`
 }
 
 type c14Conn struct {
@@ -30,6 +32,8 @@ type c14Case struct {
 	World  cfggen.World `json:"world"`
 	Format string       `json:"format"`
 	Conns  []c14Conn    `json:"conns"`
+	// Proxy: the server expects an HAProxy protocol line (terminated by NUL) before every packet
+	Proxy bool `json:"proxy,omitempty"`
 }
 
 const ctlUser, ctlPassword = "ctl", "pw-foxtrot"
@@ -181,6 +185,18 @@ func genC14(t *rapid.T) c14Case {
 	for i := 0; i < n; i++ {
 		c.Conns = append(c.Conns, genC14Conn(t, c.World))
 	}
+	if rapid.IntRange(0, 3).Draw(t, "proxy_mode") == 0 {
+		c.Proxy = true
+		for i := range c.Conns {
+			for j := range c.Conns[i].Chunks {
+				if rapid.IntRange(0, 3).Draw(t, "hostile_line") == 0 {
+					l := model.B(rapid.SampledFrom([]string{"\x00", "\n\x00", "\r\n\x00", "PROXY\x00", "PROXY TCP4 1.2.3.4\r\n\x00", "PROXY TCP9 a b c d\r\n\x00",
+						"PROXY TCP4 1.2.3.4 5.6.7.8 1 2", "", "PROXY  TCP6 :: :: 0 0 \r\n\x00", "\x00\x00\x00", "PROXY TCP4 300.1.1.1 x -1 99999999999\r\n\x00"}).Draw(t, "line"))
+					c.Conns[i].Chunks[j].Line = &l
+				}
+			}
+		}
+	}
 	return c
 }
 
@@ -191,10 +207,13 @@ func runC14(t failer, c c14Case) (handled int) {
 	fail := func(sig, format string, args ...interface{}) {
 		violation(t, "C14", "robustness", "C14:"+sig, c, format, args...)
 	}
-	env, err := startRef(c.World.Cfg, refOpts{format: c.Format, keychain: refsrv.MapKeychain(c.World.KeychainBytes()), recover: true})
+	env, err := startRef(c.World.Cfg, refOpts{format: c.Format, keychain: refsrv.MapKeychain(c.World.KeychainBytes()), recover: true, proxy: c.Proxy})
 	if err != nil {
 		ev.Class("config-refused")
 		return 0
+	}
+	if c.Proxy {
+		ev.Class("proxy-mode")
 	}
 	defer func() {
 		if e := env.stop(); e != nil {
@@ -205,6 +224,9 @@ func runC14(t failer, c c14Case) (handled int) {
 		d, err := env.dial(cfggen.AddrIn(scope, 200).IP(), 9000+i)
 		if err != nil {
 			t.Fatalf("%v", err)
+		}
+		if c.Proxy {
+			d.c.Feed([]byte(proxyLine))
 		}
 		st, pkts, closed, err := papLogin(d, scopeKey(scope), 0xc0ffee, ctlUser, ctlPassword)
 		if err != nil {
@@ -224,6 +246,13 @@ func runC14(t failer, c c14Case) (handled int) {
 		for _, ch := range cc.Chunks {
 			if conn.Closed() {
 				break
+			}
+			if c.Proxy {
+				if ch.Line != nil {
+					conn.Feed(*ch.Line)
+				} else {
+					conn.Feed([]byte(proxyLine))
+				}
 			}
 			conn.Feed(ch.Wire)
 			if !conn.AwaitQuiescentOrClosed(watchdog) {
